@@ -87,7 +87,7 @@ def run(pid, tier, runs, assumptions, rule, signature=default_signature, extra_c
                checker_cmd='tlc -workers 1 MC_TTPool_* (16 shards) ; python replay harness/pool.py')
     if traces and not only:
         from . import tracecheck
-        tc = tracecheck.run_stage(rep, traces[0], traces[1], common.seed() + 1)
+        tc = tracecheck.run_stage(rep, traces[0], traces[1], common.seed() + 1, routine_rounds=traces[2] if len(traces) > 2 else 0)
         cov.update(tc)
         cov['traces_validated_against_impl'] += tc['recorded_traces_accepted']
         cov['states'] += tc['trace_states']
